@@ -37,13 +37,13 @@ static bool newNamespace()
 
 struct ListenerCb : public Server::Listener::ICallback { virtual Server::Client::ICallback* onAccepted(Server::Client& client, uint32 ip, uint16 port); };
 struct EstCb : public Server::Establisher::ICallback { int slot; virtual Server::Client::ICallback* onConnected(Server::Client& client); virtual void onAbolished(); };
-struct ClientCb : public Server::Client::ICallback { int slot; virtual void onRead(); virtual void onWrite() {} virtual void onClosed(); };
+struct ClientCb : public Server::Client::ICallback { int slot; virtual void onRead(); virtual void onWrite(); virtual void onClosed(); };
 struct AppCb : public Server::Timer::ICallback { virtual void onActivated(); };
 
 struct MListener { bool alive; Server::Listener* h; ListenerCb* cb; int pendingConn; };
 struct MEst { bool alive, resolved, listenerAliveAtCreation; Server::Establisher* h; EstCb* cb; };
 struct MRaw { int fd; unsigned short localPort; bool accepted; int client; int unread; };     // connections made by the harness itself
-struct MClient { bool alive, suspended; Server::Client* h; ClientCb* cb; int raw; };
+struct MClient { bool alive, suspended; Server::Client* h; ClientCb* cb; int raw; int fd; bool backlog; int onWrites; };
 struct Act { int kind, x; };   // 0 nothing, 1 listen, 2 remove listener, 3 raw connect, 4 establish x, 5 remove establisher x, 6 raw x writes, 7 remove client x, 8 interrupt, 9 resume client x
 
 struct World
@@ -54,7 +54,7 @@ struct World
   bool failed, tracing, interruptRequested, stopping; std::string failKey, failMsg, trace;
   int pollsSinceInterrupt;
 
-  World() : ch(0), server(0), nraw(0), ncl(0), clockMs(50000), turn(0), reactions(0), polls(0), failed(false), tracing(false), interruptRequested(false), stopping(false), pollsSinceInterrupt(0)
+  World() : ch(0), server(0), nraw(0), ncl(0), clockMs(50000), turn(0), reactions(0), polls(0), failed(false), tracing(false), interruptRequested(false), stopping(false), pollsSinceInterrupt(0), partialFd(-1)
   { memset(&li, 0, sizeof(li)); memset(es, 0, sizeof(es)); memset(raw, 0, sizeof(raw)); memset(cl, 0, sizeof(cl)); }
   void fail(const std::string& k, const std::string& m) { if(!failed) { failed = true; failKey = "C14:" + k; failMsg = m; } }
   void note(const std::string& s, bool inner) { if(inner) trace += " {" + s + "}"; else trace += (trace.empty() ? "" : "; ") + s; if(tracing) printf("  %s%s\n", inner ? "  " : "", s.c_str()); }
@@ -144,10 +144,21 @@ struct World
   Server::Client::ICallback* adopt(Server::Client& client, int rawIdx, const std::string& where)
   {
     if(ncl >= 6) return 0;
-    int how = stopping ? 0 : ch->choose(3);    // accept (default), refuse, accept and suspend at once (still inside the callback)
+    int how = stopping ? 0 : ch->choose(4);    // accept (default), refuse, accept and suspend at once, accept and write with a send that is only partly taken (all still inside the callback)
     if(how == 1) { note(where + ": the application refuses the client", true); vf::hit("clients_refused"); return 0; }
     MClient& c = cl[ncl]; c.cb = new ClientCb(); c.cb->slot = ncl; c.h = &client; c.alive = true; c.raw = rawIdx; c.suspended = false;
+    c.fd = (int)client.getSocket().getFileDescriptor(); c.backlog = false; c.onWrites = 0;
     if(how == 2) { client.suspend(); c.suspended = true; note(where + ": the application suspends the new client", true); vf::hit("clients_suspended_in_callback"); }
+    if(how == 3)
+    { // the operating system takes one of four bytes: a backlog exists when the callback returns, write interest must survive
+      partialFd = c.fd;
+      usize postponed = 0;
+      bool ok = client.write((const byte*)"wxyz", 4, &postponed);
+      partialFd = -1;
+      if(!ok || postponed != 3) fail("write-in-callback", vf::fmt("write inside the creating callback returned %d with %d postponed bytes, expected true / 3", (int)ok, (int)postponed));
+      c.backlog = true;
+      note(where + ": the application writes to the new client, the send is only partly taken", true); vf::hit("clients_written_in_callback");
+    }
     if(rawIdx >= 0) raw[rawIdx].client = ncl;
     ++ncl; vf::hit("clients_adopted");
     return c.cb;
@@ -226,8 +237,18 @@ struct World
     perform(m[c]);
   }
   // what must have happened before the loop goes idle
+  int partialFd;
+  void clientWrote(int slot)
+  {
+    MClient& c = cl[slot];
+    if(!c.alive) { fail("client-after-remove", vf::fmt("onWrite of client %d after remove() had returned", slot)); return; }
+    if(!c.backlog) fail("spurious-onWrite", vf::fmt("onWrite delivered to client %d although it has no backlog", slot));
+    if(c.h->getSendBufferSize() != 0) fail("onWrite-early", vf::fmt("onWrite delivered to client %d while %d bytes are still buffered", slot, (int)c.h->getSendBufferSize()));
+    c.backlog = false; ++c.onWrites; vf::hit("onWrite");
+  }
   bool expectsEvents() const
   {
+    for(int k = 0; k < ncl; ++k) if(cl[k].alive && cl[k].backlog) return true;
     if(li.alive && li.pendingConn > 0) return true;
     for(int k = 0; k < 2; ++k) if(es[k].alive && !es[k].resolved) return true;
     for(int k = 0; k < nraw; ++k) if(raw[k].unread > 0 && raw[k].client >= 0 && cl[raw[k].client].alive && !cl[raw[k].client].suspended) return true;
@@ -235,6 +256,8 @@ struct World
   }
   void atIdle()
   {
+    for(int k = 0; k < ncl; ++k) if(cl[k].alive && cl[k].backlog)
+      fail("backlog-not-dispatched", vf::fmt("client %d has a send backlog and a writable socket but the loop went idle without draining it (no onWrite)", k));
     if(li.alive && li.pendingConn > 0) fail("acceptable-not-dispatched", vf::fmt("%d connection(s) wait at the listener but the loop went idle without onAccepted", li.pendingConn));
     for(int k = 0; k < 2; ++k) if(es[k].alive && !es[k].resolved) fail("connect-not-dispatched", vf::fmt("establisher %d got neither onConnected nor onAbolished before the loop went idle", k));
     for(int k = 0; k < nraw; ++k) if(raw[k].unread > 0 && raw[k].client >= 0 && cl[raw[k].client].alive && !cl[raw[k].client].suspended)
@@ -259,10 +282,15 @@ Server::Client::ICallback* ListenerCb::onAccepted(Server::Client& client, uint32
 Server::Client::ICallback* EstCb::onConnected(Server::Client& client) { int s = slot; return W->connected(s, client); }
 void EstCb::onAbolished() { int s = slot; W->abolished(s); }
 void ClientCb::onRead() { int s = slot; W->clientRead(s); }
+void ClientCb::onWrite() { int s = slot; W->clientWrote(s); }
 void ClientCb::onClosed() { int s = slot; W->clientClosed(s); }
 void AppCb::onActivated() { W->appTurn(); }
 
-extern "C" ssize_t vf_send(int fd, const void* buf, size_t n, int flags) { return ::send(fd, buf, n, flags); }
+extern "C" ssize_t vf_send(int fd, const void* buf, size_t n, int flags)
+{
+  if(W && fd == W->partialFd && n > 1) n = 1;       // the environment takes one byte of this send
+  return ::send(fd, buf, n, flags);
+}
 extern "C" ssize_t vf_recv(int fd, void* buf, size_t n, int flags) { return ::recv(fd, buf, n, flags); }
 extern "C" int vf_clock_gettime(clockid_t, struct timespec* ts)
 {
